@@ -161,6 +161,9 @@ func planC12(tier string, root *simcore.RNG) *plan {
 			}
 			r := root.Fork()
 			j := Job{ID: 1, Kind: "mcu", Sink: pick(r, []string{"tri", "stl"}), Model: model, Cells: cells}
+			if cells%5 == 0 {
+				j.Model += pick(r, []string{"@far", "@huge", "@tiny"})
+			}
 			pl.scenarios = append(pl.scenarios, &Scenario{Prop: "C12", Family: "fault", Seed: r.Uint64(), Groups: [][]Job{{j}},
 				Sites: map[string]uint32{"close": 1, "mc.sent": 1, "cons.tri": 1, "cons.stl": 1, "cons.stl.flush": 1}, Sched: Sched{Policy: "fifo"}, Env: genEnv(r), Note: "resolution-sweep"})
 		}
@@ -211,10 +214,27 @@ func planC12(tier string, root *simcore.RNG) *plan {
 			{"dc3v2", []string{"sphere-box", "csg", "cube"}, rng(1, 9, step), "tri"},
 			{"dc3v1", []string{"sphere-box", "cube"}, rng(1, 7, step), "tri"},
 		}
+		// every renderer with every placement of a model, at one resolution
+		for _, s := range sweeps {
+			for _, place := range []string{"@far", "@huge", "@tiny"} {
+				r := root.Fork()
+				c := s.cells[len(s.cells)/2]
+				j := Job{ID: 1, Kind: s.kind, Sink: s.sink, Model: s.models[0] + place, Cells: c}
+				sites := map[string]uint32{"close": 1, "go.start": 1, "auto": 4}
+				for _, hs := range sinkSites(s.sink) {
+					sites[hs] = 1
+				}
+				pl.scenarios = append(pl.scenarios, &Scenario{Prop: "C12", Family: "fault", Seed: r.Uint64(), Groups: [][]Job{{j}},
+					Sites: sites, Sched: Sched{Policy: "fifo"}, Env: genEnv(r), Note: "resolution-sweep"})
+			}
+		}
 		for _, s := range sweeps {
 			for _, c := range s.cells {
 				r := root.Fork()
 				j := Job{ID: 1, Kind: s.kind, Sink: s.sink, Model: pick(r, s.models), Cells: c}
+				if r.Intn(3) == 0 {
+					j.Model += pick(r, []string{"@far", "@huge", "@tiny"})
+				}
 				sites := map[string]uint32{"close": 1, "go.start": 1, "auto": 4}
 				for _, hs := range sinkSites(s.sink) {
 					sites[hs] = 1
